@@ -201,7 +201,7 @@ def opDec (args : List Sexp) : String :=
           -- the per-parameter reader starts with the parameter name as scope and never
           -- checks missing fields itself (the enclosing QueryParamsReader does)
           showRes (readTy { env := env, tracker := { excl := .empty, ignore := 0 }, plus := true, query := true }
-            (2 * v.length + 8) [.key [112]] ty { rest := v, start := true }))
+            (3 * v.length + 8) [.key [112]] ty { rest := v, start := true }))
       | "json" | "pretty" =>
         (match unmarshalJson { env := env, tracker := { excl := excl, ignore := ignore } } ty data with
         | none => "unmodelled json-nonstrict"
